@@ -347,9 +347,10 @@ func sbJudgeArtifacts(archs []string, vcs string, desc string, art sbArtifacts, 
 			continue
 		}
 		goRes, d := parseEmitted(sb)
-		// build.LockImageConfiguration's "defensive copy" (ImageConfiguration.MergeInto) does not carry vcs-url, so today the
-		// per-architecture document has no source element while the index document has one. The property does not speak
-		// about the source element; the model is given the URL iff the emitted document has a GENERATED_FROM relationship.
+		// build.LockImageConfiguration's "defensive copy" (ImageConfiguration.MergeInto) did not carry vcs-url until the
+		// repair of F12d: the per-architecture document then had no source element while the index document had one. The
+		// property does not speak about the source element; the model is given the URL iff the emitted document has a
+		// GENERATED_FROM relationship (both trees judge the same way).
 		if d != nil {
 			for _, rel := range d.Rels {
 				if rel.T == "GENERATED_FROM" && len(d.Describes) == 1 && rel.E == d.Describes[0] {
